@@ -5,7 +5,7 @@
 #         table of isprimepower, givprimes16.C).  Theorems are re-checked against what the source says now.
 # tie:    correspondence: extracted model vs the implementation compiled from the current tree
 #         (exhaustive for n < 2^16 on isprime/isprime_Tabule/isprime_Tabule2/next/prev; generated beyond).
-# search: sieve of Eratosthenes, deterministic Miller-Rabin (bases 2..37), re-multiplication of factor
+# search: sieve of Eratosthenes, deterministic Miller-Rabin (bases 2..41 and more), re-multiplication of factor
 #         lists with independent primality of each factor, brute-force divisor lists.
 import json, os, re, sys
 
@@ -295,6 +295,795 @@ def write_tables():
         return None, str(e)
     vf.write_if_changed(path, txt)
     return K, None
+
+
+# ------------------------------------------------------------------ specification oracles (python integers)
+
+MR_BASES = (2, 3, 5, 7, 11, 13, 17, 19, 23, 29, 31, 37, 41, 43, 47, 53, 59, 61, 67, 71)     # bases 2..41 are deterministic below 3.3e24 (psi_13)
+SMALLP = [p for p in range(2, 2000) if all(p % d for d in range(2, int(p ** 0.5) + 1))]
+
+
+def is_prime(n):
+    if n < 2:
+        return False
+    for p in SMALLP[:40]:
+        if n % p == 0:
+            return n == p
+    d, s = n - 1, 0
+    while d % 2 == 0:
+        d //= 2; s += 1
+    for a in MR_BASES:
+        if a % n == 0:
+            continue
+        x = pow(a, d, n)
+        if x in (1, n - 1):
+            continue
+        for _ in range(s - 1):
+            x = x * x % n
+            if x == n - 1:
+                break
+        else:
+            return False
+    return True
+
+
+def sieve(n):
+    b = bytearray([1]) * n
+    b[0:2] = b"\0\0"
+    for i in range(2, int(n ** 0.5) + 1):
+        if b[i]:
+            b[i * i::i] = bytearray(len(range(i * i, n, i)))
+    return b
+
+
+def next_prime(p):
+    n = max(p + 1, 2)
+    while not is_prime(n):
+        n += 1
+    return n
+
+
+def prev_prime(p):          # documented value 2 at the low end
+    if p <= 2:
+        return 2
+    n = p - 1
+    while not is_prime(n):
+        n -= 1
+    return n
+
+
+def rand_prime(rng, bits):
+    while True:
+        n = rng.bits(bits) | 1 | (1 << (bits - 1))
+        if is_prime(n):
+            return n
+
+
+def all_divisors(fac):
+    ds = [1]
+    for p, e in fac.items():
+        ds = [d * p ** k for d in ds for k in range(e + 1)]
+    return sorted(ds)
+
+
+def prod_fac(fac):
+    v = 1
+    for p, e in fac.items():
+        v *= p ** e
+    return v
+
+
+CARMICHAEL = [561, 1105, 1729, 2465, 2821, 6601, 8911, 10585, 15841, 29341, 41041, 46657, 52633, 62745, 63973, 75361,
+              101101, 115921, 126217, 162401, 172081, 188461, 252601, 278545, 294409, 314821, 334153, 340561, 399001, 410041,
+              449065, 488881, 512461, 9746347772161, 1436697831295441, 60977817398996785, 7156857700403137441,
+              1791562810662585767521, 87674969936234821377601]
+# strong pseudoprimes to the first k prime bases (psi_k), and other classical hard composites
+PSEUDO = [2047, 1373653, 25326001, 3215031751, 2152302898747, 3474749660383, 341550071728321, 3825123056546413051,
+          318665857834031151167461, 4759123141, 1122004669633, 4295098369, 4294967297, 18446744073709551617,
+          1194649, 12327121, 3277, 4033, 4681, 8321, 341, 1387, 2701, 5461, 7957, 31621, 42799]
+CARM_FAC = {561: {3: 1, 11: 1, 17: 1}, 1105: {5: 1, 13: 1, 17: 1}, 1729: {7: 1, 13: 1, 19: 1}, 2821: {7: 1, 13: 1, 31: 1},
+            8911: {7: 1, 19: 1, 67: 1}, 41041: {7: 1, 11: 1, 13: 1, 41: 1}, 101101: {7: 1, 11: 1, 13: 1, 101: 1},
+            294409: {37: 1, 73: 1, 109: 1}, 512461: {31: 1, 61: 1, 271: 1}, 9746347772161: {7: 1, 11: 1, 13: 1, 17: 1, 19: 1, 31: 1, 37: 1, 41: 1, 641: 1},
+            3215031751: {151: 1, 751: 1, 28351: 1}, 4294967297: {641: 1, 6700417: 1}, 2047: {23: 1, 89: 1},
+            1373653: {829: 1, 1657: 1}, 25326001: {2251: 1, 11251: 1}, 4295098369: {65537: 2}, 1194649: {1093: 2}, 12327121: {3511: 2}}
+GAP_STARTS = [1425172824437699411, 18361375334787046697, 804212830686677669, 1693182318746371, 360653, 31397, 19609, 1327, 113,
+              2010733, 20831323, 436273009, 4302407359, 10726904659, 25056082087]
+
+
+# ------------------------------------------------------------------ case generation
+# a case: dict(v=variant, args=[ints], kind=..., fac={p:e} or None, klass=str)
+
+FACTOR_OPS1 = ["factor", "iffactorprime", "primefactor"]
+SET_OPS = ["set2.vec", "set2.list", "set2.deque", "set1.vec", "set1.list", "write", "write.L", "divisors.n"]
+
+
+def small_smooth(rng, maxp_idx, maxfac, maxexp):
+    fac = {}
+    for _ in range(rng.range(1, maxfac)):
+        p = SMALLP[rng.below(maxp_idx)]
+        fac[p] = fac.get(p, 0) + rng.range(1, maxexp)
+    return fac
+
+
+def gen_cases(rng, tier, chk):
+    thorough = tier != "quick"
+    C = []
+
+    def add(v, args, kind, fac=None, klass=""):
+        C.append({"v": v, "args": list(args), "kind": kind, "fac": fac, "klass": klass})
+
+    # ---- A. exhaustive over the tabulated range (one line each)
+    add("range", [0, 65536], "range", klass="exhaustive [0,65536)")
+    add("range.tab1", [0, 32768], "range", klass="exhaustive [0,32768)")
+    add("range.tab2", [32768, 65536], "range", klass="exhaustive [32768,65536)")
+    add("range", [65536, 65536 + (4000 if not thorough else 400000)], "range", klass="above the tables")
+    add("range", [-3000, 0], "range", klass="n<0")
+    add("range.tab1", [32768, 33500], "range", klass="tab1 outside its range")
+    add("range.tab2", [65536, 66000], "range", klass="tab2 outside its range")
+    add("range.tab2", [32000, 32768], "range", klass="tab2 outside its range")
+    add("primes16", [], "primes16", klass="table")
+    hi = 66100
+    for v in ("nextrange", "nextrange.in"):
+        add(v, [-6, hi], "nprange", klass="exhaustive")
+    for v in ("prevrange", "prevrange.in", "pprevrange"):
+        add(v, [4, hi], "nprange", klass="exhaustive")
+    # ---- B. isprime on structured 64-bit (and some larger) n
+    ns = set()
+    for x in CARMICHAEL + PSEUDO:
+        ns.add(x)
+    for e in (15, 16, 17, 31, 32, 33, 62, 63, 64, 65):
+        for d in range(-40, 41):
+            ns.add((1 << e) + d)
+    for k in range(60 if not thorough else 2000):
+        b = rng.range(9, 32)
+        p = rand_prime(rng, b); q = next_prime(p)
+        ns.update([p * p, p * q, p, q, p * next_prime(q)])
+        ns.add(rand_prime(rng, rng.range(17, 64)))
+        ns.add(rng.bits(64) | 1)
+        ns.add(rng.bits(rng.range(17, 64)))
+        p3 = rand_prime(rng, rng.range(6, 21))
+        ns.add(p3 ** 3)
+    for p in (65521, 65537, 65539, 32749, 32771, 4294967291, 4294967311, 18446744073709551557, 18446744073709551629, 9223372036854775783, 9223372036854775837):
+        ns.update([p, p * p, p + 2, p - 2])
+    negs = [-1, -2, -3, -5, -7, -32749, -32771, -65521, -65537, -4294967289, -4294967291, -(1 << 32) + 2, -(1 << 32) + 32771, -(1 << 32) + 65521,
+            -(1 << 33) + 7, -(1 << 64) + 7, -(1 << 64) - 7, -(1 << 31), -(1 << 31) - 1, -(1 << 31) + 1, -(1 << 63), -(1 << 63) + 25, -(1 << 32), -(1 << 32) - 1,
+            -4294967295, -(3 << 32) + 65519, -(5 << 32) + 2]
+    for k in range(40):
+        negs.append(-rng.bits(rng.range(2, 66)))
+        negs.append(-(rng.range(1, 1 << 31) << 32) + SMALLP[rng.below(len(SMALLP))])
+    ivars = ["isprime", "isprime.fd"]
+    for n in sorted(ns):
+        if n < 0:
+            continue
+        add(rng.choice(ivars) if n > 70000 else "isprime", [n], "isprime", klass="n>=2^16" if n >= 65536 else "n<2^16")
+        if n >= 65536 and rng.chance(1, 3):
+            add(rng.choice(["isprime.r", "local_prime.r", "probab_prime.r"]), [n, rng.choice([1, 2, 5, 10, 25])], "isprime", klass="n>=2^16")
+        if n >= 65536 and rng.chance(1, 6):
+            add(rng.choice(["local_prime", "probab_prime"]), [n], "isprime", klass="n>=2^16")
+        if n > (1 << 32) and is_prime(n) and rng.chance(1, 4):
+            add("miller", [n], "miller", klass="prime n>2^32")
+    for n in negs:
+        add(rng.choice(["isprime", "isprime.fd", "isprime"]), [n], "isprime", klass="n<0")
+    add("isprime.r", [-7, 5], "isprime", klass="n<0")
+    for n in (-5, -1, 0, 1, 2, 3, 4, 32767, 32768, 32749, 32771, 65535, 65521):
+        add("tab1" if n < 32768 else "tab2", [n], "tab", klass="single")
+    # ---- C. next / prev prime, every call form
+    ps = set(range(-4, 12)) | set(range(32740, 32780)) | set(range(65515, 65545))
+    for e in (31, 32, 63, 64):
+        for d in range(-6, 7):
+            ps.add((1 << e) + d)
+    ps.update(GAP_STARTS)
+    ps.update([g + 1 for g in GAP_STARTS[:4]] + [next_prime(g) for g in GAP_STARTS[:6]] + [next_prime(g) + 1 for g in GAP_STARTS[:6]])
+    for k in range(40 if not thorough else 3000):
+        ps.add(rng.bits(rng.range(3, 64)))
+        ps.add(rand_prime(rng, rng.range(4, 64)))
+    for k in range(6 if not thorough else 100):
+        ps.add(rng.bits(rng.range(65, 200)))
+    ps.update([-(1 << 40), -17, -(1 << 64) - 3])
+    nforms = ["next.na", "next.alias", "next.in", "next.na.r", "next.in.r", "next.ret", "pnext", "pnext.alias"]
+    pforms = ["prev.na", "prev.alias", "prev.in", "prev.na.r", "prev.in.r", "prev.ret", "pprev", "pprev.alias"]
+    for p in sorted(ps):
+        small = -4 <= p <= 12 or 65515 <= p <= 65545
+        for forms in (nforms, pforms):
+            use = forms if small else [rng.choice(forms), rng.choice(forms)]
+            for v in dict.fromkeys(use):
+                a = [p, rng.choice([1, 5, 12])] if v.endswith(".r") else [p]
+                add(v, a, "np", klass="p<=3" if p <= 3 else ("p<2^16+" if p < 65600 else "large p"))
+    # ---- D. factorisation
+    facs = []
+    for n, f in CARM_FAC.items():
+        facs.append((f, "carmichael/pseudoprime"))
+    for k in range(50 if not thorough else 1500):
+        facs.append((small_smooth(rng, 25, 5, 4), "smooth<=97"))                      # primes of both primorials
+        facs.append((small_smooth(rng, 9, 4, 6), "smooth<=23"))
+        f = small_smooth(rng, 25, 3, 2); f[rand_prime(rng, rng.range(8, 30))] = rng.range(1, 2); facs.append((f, "smooth*prime"))
+    for k in range(30 if not thorough else 800):
+        b1 = rng.range(7, 30 if not thorough else 40); b2 = rng.range(7, 30 if not thorough else 40)
+        p, q = rand_prime(rng, b1), rand_prime(rng, b2)
+        facs.append(({p: 1, q: 1} if p != q else {p: 2}, "semiprime"))
+        p = rand_prime(rng, rng.range(7, 24)); q = next_prime(p)
+        facs.append(({p: 1, q: 1}, "semiprime close"))
+        p = rand_prime(rng, rng.range(7, 20))
+        facs.append(({p: rng.range(2, 4)}, "prime power"))
+        f = {}
+        for _ in range(3):
+            f[rand_prime(rng, rng.range(7, 18))] = rng.range(1, 2)
+        facs.append((f, "three primes >97"))
+        facs.append(({rand_prime(rng, rng.range(7, 64)): 1}, "prime"))
+        f = {SMALLP[rng.range(9, 24)]: rng.range(1, 3)}; f[SMALLP[rng.range(9, 24)]] = 1; facs.append((f, "second primorial only"))
+    for p in (2, 3, 13, 23, 29, 73, 97, 101, 1009, 32749, 32771, 65521, 65537):
+        facs.append(({p: 1}, "prime"))
+        facs.append(({p: 2}, "prime power"))
+    facs.append(({}, "n=1"))
+    if thorough:
+        for k in range(12):
+            p, q = rand_prime(rng, 38 + k % 3), rand_prime(rng, 39 + k % 2)
+            facs.append(({p: 1, q: 1}, "semiprime ~2^80"))
+    for f, cl in facs:
+        n = prod_fac(f)
+        for v in (FACTOR_OPS1 if (thorough or rng.chance(2, 3)) else [rng.choice(FACTOR_OPS1)]):
+            add(v, [n], "factor1", f, cl)
+        for v in ([rng.choice(SET_OPS), rng.choice(SET_OPS), rng.choice(SET_OPS)] if not thorough else SET_OPS):
+            add(v, [n if rng.chance(3, 4) else -n], "set", f, cl)
+        if rng.chance(1, 4):
+            add("factor.loops", [n, rng.choice([1, 2, 5, 100, 100000])], "factor1", f, cl)
+            add("iffactorprime.loops", [n, rng.choice([1, 2, 5, 100, 100000])], "factor1", f, cl)
+            add("set2.loops", [n, rng.choice([1, 2, 3, 10, 1000, 1000000])], "set", f, cl)
+        if n > 3 and not (len(f) == 1 and list(f.values()) == [1]) and all(p > 97 for p in f) and rng.chance(1, 2):
+            add("pollard", [n], "factor1", f, cl)
+        if len(f) == 2 and all(e == 1 for e in f.values()) and all(p > 100000 for p in f) and n < (1 << 62) and rng.chance(1, 3):
+            add("lenstra", [n], "factor1", f, cl)
+        if n < (1 << 20):
+            add("erat", [n], "set", f, cl)
+        add("ipp", [n], "ipp", f, cl)
+        if f and len(all_divisors(f)) <= 4000:
+            a = []
+            items = list(f.items()); rng.shuffle(items)
+            for p, e in items:
+                a += [p, e]
+            add(rng.choice(["divisors.lf", "divisors.lf.list"]), a, "divlf", f, cl)
+    # edge values, every form
+    for n in (0, 1, 2, 3, 4, -1, -2, -4, -6, -360, 6, 12, 360, 2 * 3 * 5 * 7 * 11 * 13 * 17 * 19 * 23, 223092870 * 29, 10334565887047481278774629361):
+        f = None
+        if n != 0:
+            f = {}
+            m = abs(n)
+            for p in SMALLP:
+                while m % p == 0:
+                    f[p] = f.get(p, 0) + 1; m //= p
+        for v in FACTOR_OPS1 + SET_OPS + ["set2.loops"]:
+            add(v, [n] + ([3] if v == "set2.loops" else []), "factor1" if v in FACTOR_OPS1 else "set", f, "edge n=%d" % n if abs(n) < 1000 else "edge primorial")
+        add("ipp", [n], "ipp", f, "edge")
+    # prime powers for isprimepower: small and large bases, prime and composite exponents, negatives
+    for p in (2, 3, 5, 7, 31, 997, 1009, 1013, 65537, 4294967311):
+        for e in (1, 2, 3, 4, 5, 6, 7, 8, 9, 11, 12):
+            if p ** e < (1 << 400):
+                add("ipp", [p ** e], "ipp", {p: e}, "p^e p%s1009 e %s" % ("<" if p < 1009 else ">=", "prime" if is_prime(e) or e == 1 else "composite"))
+                if e in (2, 3, 5) or rng.chance(1, 4):
+                    add("ipp", [-(p ** e)], "ipp", {p: e}, "n<0")
+    for k in range(20 if not thorough else 400):
+        p = rand_prime(rng, rng.range(11, 40)); e = rng.choice([2, 3, 4, 5, 6, 7, 9, 10])
+        add("ipp", [p ** e], "ipp", {p: e}, "p^e p>=1009 e %s" % ("prime" if is_prime(e) else "composite"))
+        q = next_prime(p)
+        add("ipp", [p ** e * q], "ipp", {p: e, q: 1}, "not a prime power")
+        add("ipp", [p ** 2 * q ** 2], "ipp", {p: 2, q: 2}, "perfect square, two primes")
+        add("ipp", [4 * p], "ipp", {2: 2, p: 1}, "4p")
+        add("ipp", [(1 << rng.range(2, 70)) * (p if rng.chance(1, 2) else 1)], "ipp", None, "power of two times")
+    chk.cov["cases_by_kind"] = {}
+    for c in C:
+        chk.cov["cases_by_kind"][c["kind"]] = chk.cov["cases_by_kind"].get(c["kind"], 0) + 1
+    return C
+
+
+# ------------------------------------------------------------------ model input from a case + what the implementation printed
+
+def to_int(t):
+    try:
+        return int(t)
+    except (ValueError, TypeError):
+        return None
+
+
+def parse_pairs(toks):
+    out = []
+    for t in toks:
+        a, _, b = t.partition(":")
+        if to_int(a) is None or to_int(b) is None:
+            return None
+        out.append((int(a), int(b)))
+    return out
+
+
+def parse_write(s):
+    """'[-2^3*3*5]' -> (sign, [(g, c)] or single value)"""
+    m = re.fullmatch(r"\[(-?)(.*)\]", s)
+    if not m:
+        return None
+    neg, body = m.group(1) == "-", m.group(2)
+    items = []
+    for part in body.split("*"):
+        g, _, c = part.partition("^")
+        if to_int(g) is None or (c != "" and to_int(c) is None):
+            return None
+        items.append((int(g), int(c) if c != "" else 1))
+    return neg, items
+
+
+def model_line(c, out):
+    """line for the model driver, or None when the op has no model (GMP wrappers, Erathostene, Miller)"""
+    v, a = c["v"], c["args"]
+    base = v.split(".")[0]
+    toks = out.split()
+    bad = out.startswith("HANG") or out.startswith("CRASH")
+    if c["kind"] == "range":
+        return "%s %d %d" % (v, a[0], a[1])
+    if c["kind"] == "nprange":
+        return "%s %d %d" % (v, a[0], a[1])
+    if v in ("isprime", "isprime.r", "isprime.fd"):
+        return "isprime %d" % a[0]
+    if v in ("local_prime", "local_prime.r", "probab_prime", "probab_prime.r"):
+        return "lp %d" % a[0]
+    if v in ("tab1", "tab2"):
+        return "%s %d" % (v, a[0])
+    if base in ("next", "prev"):
+        form = v.split(".")[1]
+        form = {"na": "na", "alias": "alias", "in": "in", "ret": "na"}[form]
+        return "%s.%s %d" % (base, form, a[0])
+    if v in ("pprev", "pprev.alias"):
+        return "pprev %d" % a[0]
+    if base in ("factor", "iffactorprime", "primefactor", "pollard", "lenstra"):
+        obs = to_int(toks[0]) if toks and not bad else None
+        return "%s %d %d" % (base, a[0], obs if obs is not None else 1)
+    if base == "set2":
+        if bad or not toks:
+            return "set2 %d" % a[0]
+        prs = parse_pairs(toks[1:]) or []
+        gs = [g for g, e in prs]
+        if toks[0] == "0" and gs:
+            gs[-1] = 1
+        return "set2 %d %s" % (a[0], " ".join(map(str, gs)))
+    if base == "set1":
+        gs = [t for t in toks if to_int(t) is not None] if not bad else []
+        return "set1 %d %s" % (a[0], " ".join(gs))
+    if base == "write":
+        w = parse_write(toks[0]) if toks and not bad else None
+        gs = [g for g, e in w[1]] if w and abs(a[0]) > 1 else []
+        return "%s %d %s" % (v, a[0], " ".join(map(str, gs)))
+    if v == "divisors.n":
+        L = [to_int(t) for t in toks] if not bad else []
+        gs = []
+        if L and None not in L and a[0] != 0:
+            idx, m = 1, abs(a[0])
+            while idx < len(L):
+                g = L[idx]
+                if g is None or g < 2 or m % g:
+                    break
+                e = 0
+                while m % g == 0:
+                    m //= g; e += 1
+                gs.append(g); idx *= (e + 1)
+        return "divisors.n %d %s" % (a[0], " ".join(map(str, gs)))
+    if v in ("divisors.lf", "divisors.lf.list"):
+        return "divisors.lf " + " ".join(map(str, a))
+    if v == "ipp":
+        return "ipp %d" % a[0]
+    return None
+
+
+def norm_impl(c, out):
+    """implementation output in the format of the model driver (for the correspondence comparison)"""
+    v = c["v"]
+    if out.startswith("HANG") or out.startswith("CRASH"):
+        return "NONE"
+    if v in ("next.ret", "prev.ret"):
+        return out.split()[0] if out.split() else out
+    if v == "divisors.lf":
+        return out.split(" ; ")[0].strip()
+    if v == "ipp":
+        t = out.split()
+        if len(t) == 2 and t[0] == "0":
+            return "0"                      # q is unspecified when the return value is 0
+    return out.strip()
+
+
+def norm_model(c, out):
+    if c["v"] == "ipp":
+        t = out.split()
+        if len(t) == 2 and t[0] == "0":
+            return "0"
+    return out.strip()
+
+
+# ------------------------------------------------------------------ the specification, case by case
+
+SITE = {"isprime": "IntPrimeDom::isprime", "isprime.r": "IntPrimeDom::isprime", "isprime.fd": "IntPrimeDom::isprime",
+        "range": "IntPrimeDom::isprime", "range.tab1": "IntPrimeDom::isprime_Tabule", "range.tab2": "IntPrimeDom::isprime_Tabule2",
+        "tab1": "IntPrimeDom::isprime_Tabule", "tab2": "IntPrimeDom::isprime_Tabule2",
+        "local_prime": "IntPrimeDom::local_prime", "local_prime.r": "IntPrimeDom::local_prime",
+        "probab_prime": "Protected::probab_prime", "probab_prime.r": "Protected::probab_prime", "miller": "IntPrimeDom::Miller",
+        "next.na": "IntPrimeDom::nextprime", "next.na.r": "IntPrimeDom::nextprime", "next.ret": "IntPrimeDom::nextprime", "next.alias": "IntPrimeDom::nextprime(aliased)",
+        "next.in": "IntPrimeDom::nextprimein", "next.in.r": "IntPrimeDom::nextprimein",
+        "prev.na": "IntPrimeDom::prevprime", "prev.na.r": "IntPrimeDom::prevprime", "prev.ret": "IntPrimeDom::prevprime", "prev.alias": "IntPrimeDom::prevprime(aliased)",
+        "prev.in": "IntPrimeDom::prevprimein", "prev.in.r": "IntPrimeDom::prevprimein",
+        "pprev": "Protected::prevprime", "pprev.alias": "Protected::prevprime", "pnext": "Protected::nextprime", "pnext.alias": "Protected::nextprime",
+        "nextrange": "IntPrimeDom::nextprime", "nextrange.in": "IntPrimeDom::nextprimein", "prevrange": "IntPrimeDom::prevprime",
+        "prevrange.in": "IntPrimeDom::prevprimein", "pprevrange": "Protected::prevprime",
+        "factor": "IntFactorDom::factor", "factor.loops": "IntFactorDom::factor", "iffactorprime": "IntFactorDom::iffactorprime",
+        "iffactorprime.loops": "IntFactorDom::iffactorprime", "primefactor": "IntFactorDom::primefactor",
+        "pollard": "IntFactorDom::Pollard", "lenstra": "IntFactorDom::Lenstra",
+        "set2.vec": "IntFactorDom::set(Lf,Lo,n)", "set2.list": "IntFactorDom::set(Lf,Lo,n)", "set2.deque": "IntFactorDom::set(Lf,Lo,n)",
+        "set2.loops": "IntFactorDom::set(Lf,Lo,n,loops)", "set1.vec": "IntFactorDom::set(Lf,n)", "set1.list": "IntFactorDom::set(Lf,n)",
+        "write": "IntFactorDom::write", "write.L": "IntFactorDom::write", "divisors.n": "IntFactorDom::divisors(L,n)",
+        "divisors.lf": "IntFactorDom::divisors(L,Lf,Le)", "divisors.lf.list": "IntFactorDom::divisors(L,Lf,Le)",
+        "erat": "IntFactorDom::Erathostene(Lf,n)", "ipp": "IntPrimeDom::isprimepower", "primes16": "Primes16"}
+
+
+def ipp_class(c):
+    n = c["args"][0]
+    if n < 0:
+        return "n<0"
+    if n == 0:
+        return "n=0"
+    f = c["fac"]
+    if f is not None and len(f) == 1:
+        (p, e), = f.items()
+        if e >= 2 and p >= 1009 and not is_prime(e):
+            return "n=p^e, p>=1009, e composite"
+    return c["klass"] or "other"
+
+
+def spec_check(chk, c, out, K, sv):
+    """compare the implementation's answer with the specification; returns True when it is wrong
+    (and has been reported through chk.fail_input)"""
+    v, a, f = c["v"], c["args"], c["fac"]
+    site = SITE.get(v, v)
+    toks = out.split()
+    hang = out.startswith("HANG") or out.startswith("CRASH")
+
+    def fail(klass, exp, detail=""):
+        chk.fail_input(site, klass, {"variant": v, "args": [str(x) for x in a]}, exp, out[:300], detail)
+        return True
+
+    kind = c["kind"]
+    if kind == "range":
+        lo, hi = a
+        if hang or len(out) != hi - lo:
+            return fail(c["klass"], "%d characters" % (hi - lo), "range call did not complete")
+        tab = v != "range"
+        if "outside" in c["klass"]:
+            return False          # isprime_Tabule(2) outside the range the dispatch uses it for: correspondence only
+        bad = False
+        for i, ch in enumerate(out):
+            n = lo + i
+            pr = (sv[n] == 1) if 0 <= n < len(sv) else is_prime(n)
+            if (ch == "1") != pr:
+                chk.fail_input(site, "n<0" if n < 0 else ("n<2^16" if n < 65536 else "n>=2^16"), {"variant": v.replace("range", "isprime") if not tab else v, "args": [str(n)]},
+                               int(pr), ch, "isprime(n) differs from the sieve / deterministic Miller-Rabin")
+                bad = True
+        return bad
+    if kind == "primes16":
+        want = [i for i in range(65536) if sv[i]]
+        got = [to_int(t) for t in toks]
+        if hang or not got or got[0] != len(want) or got[1:] != want:
+            return fail("table", "count %d and the primes below 65536 in order" % len(want), "Primes16 table differs from the sieve")
+        return False
+    if kind == "nprange":
+        lo, hi = a
+        got = [to_int(t) for t in toks]
+        if hang or len(got) != hi - lo:
+            return fail(c["klass"], "%d values" % (hi - lo), "range call did not complete")
+        bad = False
+        nxt = v.startswith("next")
+        for i, g in enumerate(got):
+            p = lo + i
+            want = next_small(p, sv) if nxt else prev_small(p, sv)
+            if g != want:
+                chk.fail_input(site, "p=%d" % p if p <= 3 else "p<2^16+", {"variant": v.replace("range", ".na") if "." not in v else v, "args": [str(p)]}, want, g,
+                               "not the closest prime %s p" % ("above" if nxt else "below"))
+                bad = True
+        return bad
+    if hang:
+        kl = c["klass"]
+        if v == "ipp":
+            kl = ipp_class(c)
+        elif v == "primefactor" and a[0] == 1:
+            kl = "n=1"
+        elif SITE.get(v, "").find("prevprime") >= 0 and a[0] == 3:
+            kl = "p=3"
+        return fail(kl, "an answer", "the call did not return within its time budget / raised a signal (%s)" % out)
+    if kind in ("isprime", "tab"):
+        n = a[0]
+        if kind == "tab" and n < 0:
+            return False          # direct call of the table search below its range: correspondence only
+        want = is_prime(n)
+        if v.startswith("local_prime") or v.startswith("probab_prime"):
+            want = is_prime(abs(n))                     # GMP's convention; only called with n >= 0 here
+        if not toks or (toks[0] != "0") != want:
+            return fail("n<0" if n < 0 else c["klass"], int(want), "primality answer differs from deterministic Miller-Rabin (bases 2..41 and more)")
+        return False
+    if kind == "miller":
+        if toks[:1] != ["1"]:
+            return fail(c["klass"], 1, "Miller rejected a prime")
+        return False
+    if kind == "np":
+        p = a[0]
+        nxt = v.startswith("next") or v.startswith("pnext")
+        want = next_prime(p) if nxt else prev_prime(p)
+        g = to_int(toks[0]) if toks else None
+        if g != want:
+            return fail("p=%d" % p if -4 <= p <= 3 else c["klass"], want, "not the closest prime %s p (2 at the low end)" % ("above" if nxt else "below"))
+        if v.endswith(".ret") and toks[1:] != ["1"]:
+            return fail(c["klass"], "returns its first argument", "returned reference is not the destination")
+        return False
+    if kind == "factor1":
+        n = a[0]
+        g = to_int(toks[0]) if toks else None
+        if g is None:
+            return fail(c["klass"], "an integer")
+        loops = len(a) > 1 and a[1] != 0
+        if n == 0:
+            return fail("n=0", "non-zero") if g == 0 else False
+        if g == 0 or (n % g != 0 and not (v == "lenstra" and g == -1)):
+            return fail(c["klass"], "a divisor of n", "returned value does not divide n")
+        composite = n >= 4 and not is_prime(n)
+        base = v.split(".")[0]
+        if base == "lenstra":        # a probabilistic fallback that may report failure: only "what it returns divides n" is required
+            chk.cov["lenstra_nontrivial"] = chk.cov.get("lenstra_nontrivial", 0) + (1 if 1 < g < n else 0)
+            return False
+        if composite and not loops and not (1 < g < n):
+            return fail(c["klass"], "1 < g < n", "trivial factor for a composite n")
+        if composite and loops and not (1 <= g <= n):
+            return fail(c["klass"], "1 <= g <= n")
+        if base in ("iffactorprime", "primefactor") and n >= 2 and not loops and not is_prime(g):
+            return fail(c["klass"], "a prime factor", "returned factor is not prime")
+        if n >= 2 and is_prime(n) and g != n:
+            return fail(c["klass"], n, "factor of a prime must be the prime itself")
+        return False
+    if kind == "set":
+        n = a[0]
+        if n == 0:
+            return False                                  # the property speaks about non-zero integers
+        m = abs(n)
+        base = v.split(".")[0]
+        kl = "n<0" if n < 0 else c["klass"]
+        if base == "set2":
+            prs = parse_pairs(toks[1:]) if toks else None
+            if prs is None or toks[0] not in ("0", "1"):
+                return fail(kl, "flag and g:e pairs")
+            complete = toks[0] == "1"
+            gs = [g for g, e in prs]
+            if len(set(gs)) != len(gs):
+                return fail(kl, "distinct factors")
+            if any(e < 1 for g, e in prs) or any(g < 2 for g in gs):
+                return fail(kl, "factors >= 2 with exponents >= 1")
+            pr = 1
+            for g, e in prs:
+                pr *= g ** e
+            if pr != m:
+                return fail(kl, "product = |n| = %d" % m, "product of the returned factorisation is %d" % pr)
+            if complete and not all(is_prime(g) for g in gs):
+                return fail(kl, "primes (factorisation flagged complete)")
+            if v != "set2.loops" and not complete:
+                return fail(kl, "complete factorisation (loops = 0)")
+            return False
+        if base in ("set1", "erat"):
+            gs = [to_int(t) for t in toks]
+            want = sorted(f.keys()) if f is not None else None
+            if None in gs or len(set(gs)) != len(gs) or (want is not None and sorted(gs) != want):
+                return fail(kl, "the distinct primes of |n|: %s" % want)
+            return False
+        if base == "write":
+            w = parse_write(toks[0]) if toks else None
+            if w is None:
+                return fail(kl, "sign and g^c * ... ")
+            neg, items = w
+            pr = 1
+            for g, e in items:
+                pr *= g ** e
+            if (-pr if neg else pr) != n:
+                return fail(kl, "a product equal to n")
+            if m > 1 and (not all(is_prime(g) for g, e in items) or len({g for g, e in items}) != len(items)):
+                return fail(kl, "distinct primes")
+            if v == "write.L":
+                L = [to_int(t) for t in toks[1:]]
+                if L != [g for g, e in items]:
+                    return fail(kl, "Lf = the printed bases")
+            return False
+        if v == "divisors.n":
+            L = [to_int(t) for t in toks]
+            want = all_divisors(f) if f is not None else None
+            if None in L or len(set(L)) != len(L) or (want is not None and sorted(L) != want):
+                return fail(kl, "exactly the positive divisors of |n| (%d of them)" % (len(want) if want else -1))
+            return False
+    if kind == "divlf":
+        body = out.split(" ; ")
+        L = [to_int(t) for t in body[0].split()]
+        want = all_divisors(f)
+        if None in L or sorted(L) != want:
+            return fail(c["klass"], "exactly the positive divisors (%d of them)" % len(want))
+        if v == "divisors.lf" and (len(body) < 2 or body[1].strip() != "1"):
+            return fail(c["klass"], "returns its first argument")
+        return False
+    if kind == "ipp":
+        n = a[0]
+        e = to_int(toks[0]) if toks else None
+        q = to_int(toks[1]) if len(toks) > 1 else None
+        if e is None:
+            return fail(ipp_class(c), "an integer")
+        want = None
+        if n >= 2 and f is not None and len(f) == 1:
+            (p, ex), = f.items()
+            if ex >= 2:
+                want = (ex, p)
+        if n >= 2 and f is None:          # power of two times something: decide here
+            m, k = n, 0
+            while m % 2 == 0:
+                m //= 2; k += 1
+            if m == 1 and k >= 2:
+                want = (k, 2)
+        if want is None:
+            if e != 0:
+                return fail(ipp_class(c), 0, "n is not a proper prime power")
+            return False
+        if (e, q) != want:
+            return fail(ipp_class(c), "%d %d" % want, "n = %d^%d" % (want[1], want[0]))
+        return False
+    return False
+
+
+def next_small(p, sv):
+    n = max(p + 1, 2)
+    while n < len(sv) and not sv[n]:
+        n += 1
+    return n if n < len(sv) else next_prime(p)
+
+
+def prev_small(p, sv):
+    if p <= 2:
+        return 2
+    n = p - 1
+    while not sv[n]:
+        n -= 1
+    return n
+
+
+# ------------------------------------------------------------------ known findings handed back in frag/ (until merged)
+
+def install_frag_findings():
+    """frag/C12.findings.json is the hand-back channel for findings (the coordinator merges it into
+    known_findings.json).  Entries whose (site, klass) is not yet in known_findings.json under ANY status are
+    honoured from the frag file, so that the check is green between hand-back and merge; once the coordinator
+    has an entry for the site/klass (known or fixed), known_findings.json alone decides."""
+    orig = vf.load_known
+    fp = os.path.join(vf.ROOT, "frag", "C12.findings.json")
+
+    def load():
+        base = orig()
+        try:
+            extra = json.load(open(fp))
+        except (OSError, ValueError):
+            return base
+        have = {(x.get("property"), x.get("site"), x.get("klass")) for x in base}
+        return base + [x for x in extra if (x.get("property"), x.get("site"), x.get("klass")) not in have]
+    vf.load_known = load
+
+
+# ------------------------------------------------------------------ main
+
+def main(tier, replay=None):
+    chk = vf.Check("C12", tier, "proof")
+    install_frag_findings()
+    rng = vf.Rng(chk.seed)
+    chk.cov["trusted_base"] = [
+        "Coq 8.16.1 kernel + vm_compute (the complete sweeps of [0,65536) run inside the kernel's VM; no native_compute)",
+        "checks/C12.py gen_tables(): regular-expression reader of the tables, table sizes, search constants, dispatch bounds, low-end constants, "
+        "trial-division macros and primorials from the current source text (it refuses, and the check reports, any shape it does not recognise); "
+        "validated on every run by the exhaustive correspondence run of the extracted model against the compiled code",
+        "GMP: mpz_probab_prime_p (primality above 65536), mpz_root, mpz_nextprime are oracles of the model; in the model driver they are the same GMP functions through Zarith",
+        "Pollard rho / Lenstra ECM random walks are oracles of the model (their results are replayed); what they return is checked per case against the specification oracle",
+        "extraction: ExtrOcamlBasic only; Z/positive/nat kept as extracted inductives; OCaml 4.13.1",
+        "harness/c12_prime.C, checks/C12.py (case generators; python oracle: sieve, deterministic Miller-Rabin bases 2..41 and more, re-multiplication, brute-force divisors)",
+        "g++ / x86-64 / GMP for the implementation side",
+    ]
+    chk.assumptions = ["primality of n >= 65536 is delegated by the code to GMP; agreement with deterministic Miller-Rabin on 64-bit n is TESTED (structured inputs), not proved",
+                       "factor/iffactorprime/primefactor/set/write/divisors/isprimepower: hand model after the code, tied by correspondence; their specification is checked per generated case by the python oracle"]
+    # 0. tables and constants from the current source
+    K, err = write_tables()
+    if err:
+        chk.broke("translation of the prime tables / constants from the source failed: " + err)
+    # 1. proofs
+    res = vf.coq_check_props(AREA, timeout=900)
+    chk.proof_result(res, AREA)
+    # 2. executables
+    drv, l1 = vf.ocaml_build(AREA) if os.path.exists(os.path.join(vf.coq_dir(AREA), "ocaml", "model.ml")) else (None, "extraction did not run")
+    if drv is None:
+        chk.broke("extracted model driver does not build", l1)
+    himpl, l2 = vf.build_harness("c12_prime.C")
+    if himpl is None:
+        chk.broke("implementation harness does not compile against /repo", l2)
+        return chk.finish()
+    # 3. cases
+    if replay:
+        rp = json.load(open(replay))
+        cases = []
+        for fi in rp.get("failing_inputs", []):
+            cs = fi["case"]
+            cases.append({"v": cs["variant"], "args": [int(x) for x in cs["args"]], "kind": "replay", "fac": None, "klass": fi.get("klass", "")})
+        impl_in = "".join("%s %s\n" % (c["v"], " ".join(str(x) for x in c["args"])) for c in cases)
+        rc, iout, ierr = vf.run_lines(himpl, impl_in, timeout=600, args=["10"])
+        for c, o in zip(cases, iout):
+            print("replay %s %s -> %s" % (c["v"], c["args"], o[:200]))
+        return 0
+    sv = sieve(1 << 17)
+    cases = gen_cases(rng, tier, chk)
+    impl_in = "".join("%s %s\n" % (c["v"], " ".join(str(x) for x in c["args"])) for c in cases)
+    rc, iout, ierr = vf.run_lines(himpl, impl_in, timeout=1500, args=["4" if tier == "quick" else "60"])
+    if rc != 0 or len(iout) != len(cases):
+        bad = cases[len(iout)] if len(iout) < len(cases) else None
+        chk.broke("implementation harness failed (rc=%s, %d/%d lines); next case: %s" % (rc, len(iout), len(cases), bad and (bad["v"], bad["args"])), ierr)
+        return chk.finish()
+    # 4. model run on the same cases (+ the implementation's random-walk answers as oracle values)
+    mlines, midx = [], []
+    for i, c in enumerate(cases):
+        ml = model_line(c, iout[i])
+        if ml is not None:
+            mlines.append(ml); midx.append(i)
+    mout = {}
+    if drv:
+        rc, mo, merr = vf.run_lines(drv, "\n".join(mlines) + "\n", timeout=1500)
+        if rc != 0 or len(mo) != len(mlines):
+            chk.broke("model driver failed (rc=%s, %d/%d lines)" % (rc, len(mo), len(mlines)), merr)
+        else:
+            mout = {i: o for i, o in zip(midx, mo)}
+    # 5. three-way comparison
+    ncorr = 0
+    dist = {}
+    hangs = 0
+    for i, c in enumerate(cases):
+        out = iout[i]
+        key = c["v"]
+        dist[key] = dist.get(key, 0) + 1
+        units = (c["args"][1] - c["args"][0]) if c["kind"] in ("range", "nprange") else 1
+        chk.cov["evaluations"] += units - 1
+        chk.count((c["v"], tuple(c["args"])), nontrivial=True)
+        if c["kind"] in ("range", "nprange"):
+            for n in range(c["args"][0], c["args"][1]):
+                chk.distinct.add((c["v"], n))
+        if i % 211 == 0:
+            chk.sample({"variant": c["v"], "args": [str(x) for x in c["args"]][:4], "impl": out[:80], "class": c["klass"]})
+        if out.startswith("HANG") or out.startswith("CRASH"):
+            hangs += 1
+        wrong = spec_check(chk, c, out, K, sv)
+        if i in mout:
+            ncorr += units
+            mi, mm = norm_impl(c, out), norm_model(c, mout[i])
+            if mi != mm and not wrong:
+                d = ""
+                if c["kind"] in ("range", "nprange"):
+                    xs, ys = (list(mi), list(mm)) if c["kind"] == "range" else (mi.split(), mm.split())
+                    for j, (x, y) in enumerate(zip(xs, ys)):
+                        if x != y:
+                            d = " first difference at n=%d: impl=%s model=%s" % (c["args"][0] + j, x, y); break
+                chk.broke("correspondence model/implementation differs on %s %s: model=%s impl=%s%s"
+                          % (c["v"], [str(x) for x in c["args"]][:6], mm[:120], mi[:120], d))
+    if os.environ.get("C12_DEBUG"):
+        json.dump({"failing": chk.failing, "broken": chk.broken}, open(os.path.join(vf.BUILD, "logs", "C12.debug.json"), "w"), indent=1, default=str)
+    if len(chk.broken) > 20:
+        chk.broken = chk.broken[:20] + [{"what": "... %d more" % (len(chk.broken) - 20), "detail": ""}]
+    chk.cov["rule"] = ("exhaustive n in [0,65536) for isprime / isprime_Tabule / isprime_Tabule2 and p in [-6,66100) for every next/prev form; "
+                       "structured 64-bit n (Carmichael numbers, strong pseudoprimes, p^2, pq with close p and q, neighbours of 2^15..2^65, negatives); "
+                       "factorisation inputs built from known prime factorisations (smooth, semiprime, prime power, Carmichael, second-primorial-only, n=0,1,2, negative); "
+                       "distinct = (call form, arguments), one per n for range sweeps")
+    chk.cov["traces_validated_against_impl"] = ncorr
+    chk.cov["call_forms"] = len(dist)
+    chk.cov["distribution_by_call_form"] = dist
+    chk.cov["calls_that_did_not_return"] = hangs
+    if K:
+        chk.cov["source_constants"] = {k: K[k] for k in ("DISPATCH1", "DISPATCH2", "PREV_LOW", "PREVIN_LOW", "PPREV_LOW", "ISPRIME_HAS_GUARD", "ISPRIME_GUARD",
+                                                      "IPP_NEG_GUARD", "IPP_RECURSE", "IPP_ZERO_RET", "PRIMEFACTOR_GUARD", "SET1_ABS", "PRIMES16_SIZE")}
+        chk.cov["table_sizes"] = {"IP": len(K["IP"]), "IP2": len(K["IP2"]), "PRIMES16": len(K["PRIMES16"])}
+    return chk.finish()
+
 
 
 if __name__ == "__main__":
